@@ -54,7 +54,9 @@ REQUIRED_COUNTERS = ['partitions_analysed', 'rows_compared',
                      'zip_containers', 'gzip_files',
                      'metamorphic_pairs_compared',
                      'single_qubit_entries_compared',
-                     'single_record_dict_files', 'keys_above_255_trials']
+                     'single_record_dict_files', 'keys_above_255_trials',
+                     'records_with_float_noise_in_rate',
+                     'same_name_files_in_job_dirs']
 
 CODES = {
     1: {'name': 'Planar2DCode', 'parameters': {'L_x': 3, 'L_y': 3,
@@ -180,8 +182,14 @@ def partition(rng, keys):
     return [f for f in files if f]
 
 
-def record_of(key, idx):
-    return {'inputs': json.loads(json.dumps(key['inputs'])),
+def record_of(key, idx, jitter=0):
+    inputs = json.loads(json.dumps(key['inputs']))
+    if jitter:
+        # the same rate as another run's input grid would spell it
+        # (0.15 vs 0.15000000000000002): one ulp up or down
+        r = inputs['error_rate']
+        inputs['error_rate'] = float(np.nextafter(r, r + jitter))
+    return {'inputs': inputs,
             'results': {'n_runs': len(idx), 'wall_time': 0.01 * len(idx),
                         'effective_error': [key['ee'][i] for i in idx],
                         'success': [key['succ'][i] for i in idx],
@@ -198,8 +206,14 @@ def write_partition(rng, keys, files, root, out):
     zip_members = []
     plain_for_merge = []
     for fi, chunks in enumerate(files):
-        data = [record_of(keys[ki], idx) for ki, idx in chunks]
-        kind = str(rng.choice(['json', 'gz', 'zip', 'merge', 'subdir-gz']))
+        jit = [int(rng.choice([0, 0, 0, 1, -1])) for _ in chunks]
+        if any(jit):
+            out.count('records_with_float_noise_in_rate',
+                      sum(1 for j in jit if j))
+        data = [record_of(keys[ki], idx, j)
+                for (ki, idx), j in zip(chunks, jit)]
+        kind = str(rng.choice(['json', 'gz', 'zip', 'merge', 'subdir-gz',
+                               'jobdir', 'jobdir']))
         if len(data) == 1 and rng.random() < 0.5:
             data = data[0]          # a single record: top-level dict
             out.count('single_record_dict_files')
@@ -222,6 +236,22 @@ def write_partition(rng, keys, files, root, out):
                 f.write(json.dumps(data).encode())
             out.count('gzip_files')
             paths.append(os.path.join(root, f'sub{fi}'))
+        elif kind == 'jobdir':
+            # per-job directories that all call their file "results"
+            d = os.path.join(root, 'jobs', f'job_{fi}')
+            os.makedirs(d)
+            if rng.random() < 0.5:
+                p = os.path.join(d, 'results.json')
+                with open(p, 'w') as f:
+                    json.dump(data, f)
+            else:
+                p = os.path.join(d, 'results.json.gz')
+                with gzip.open(p, 'wb') as f:
+                    f.write(json.dumps(data).encode())
+                out.count('gzip_files')
+            out.count('same_name_files_in_job_dirs')
+            if os.path.join(root, 'jobs') not in paths:
+                paths.append(os.path.join(root, 'jobs'))
         elif kind == 'zip':
             zip_members.append((f'inner/r{fi}.json' if rng.random() < 0.5
                                 else f'r{fi}.json.gz', data))
